@@ -431,7 +431,8 @@ def truth_under(t, conds, roles, depth=0):
     if len(atoms) != 1:
         return None
     a, tk = atoms[0]
-    key = sym.canon(a, roles)
+    # the conditions were recorded with their own sub-terms already simplified (a constant `fence ? 2 : 1` inside an argument)
+    key = sym.canon(resolve_ternaries(a, conds, roles, depth + 1) if depth < 6 else a, roles)
     while key.startswith('!(') and key.endswith(')') and _balanced(key[2:-1]):
         key, tk = key[2:-1], not tk
     for c, v in conds:
